@@ -199,6 +199,23 @@ namespace nmtools
         return op(attribute);
     } // fwd_attribute
 
+    namespace detail
+    {
+        // forward an operand that may be a maybe type without copying it first:
+        // fwd_operand may take the address of its argument, which must then outlive the call
+        // (unwrap returns by value, the address of that temporary would dangle)
+        template <typename T>
+        constexpr auto fwd_unwrapped_operand(const T& operand)
+            -> meta::fwd_operand_t<meta::remove_cvref_t<decltype(unwrap(meta::declval<T>()))>>
+        {
+            if constexpr (meta::is_maybe_v<T>) {
+                return fwd_operand(*operand);
+            } else {
+                return fwd_operand(operand);
+            }
+        }
+    } // namespace detail
+
     template <typename...Ts>
     constexpr auto pack_operands(const Ts&...ts)
     {
@@ -206,7 +223,7 @@ namespace nmtools
             using result_t = nmtools_tuple<meta::fwd_operand_t<meta::remove_cvref_t<decltype(unwrap(meta::declval<Ts>()))>>...>;
             using return_t = nmtools_maybe<result_t>;
             return ((has_value(ts) && ...)
-                ? return_t{nmtools_tuple{fwd_operand(unwrap(ts))...}}
+                ? return_t{result_t{detail::fwd_unwrapped_operand(ts)...}}
                 : return_t{meta::Nothing}
             );
         } else {
